@@ -163,6 +163,54 @@ def gen_seeded_cases(rng, names, n):
         out.append(c)
     return out
 
+# ------------------------------------------------------------------ ATG / stop position-class stream
+# lncRNA transcripts designed so that start and stop codons sit at every position class: ATG as the first / the last
+# three bases, ATG directly followed by a stop (empty ORF), ATG-ATG, a nested in-frame ATG directly after a cleavage
+# residue, ORFs running off the 3' end with 0 / 1 / 2 trailing bases in each frame, stop codon as the last codon.
+def design_position_tx(rng):
+    cls = []
+    parts = []
+    if rng.random() < 0.5:
+        cls.append('atg_at_0')
+    else:
+        parts.append(G.rand_dna(rng, rng.randint(1, 7)))
+    def orf(n):
+        p = 'M' + G.rand_protein(rng, n, bias='KRKRPMWDEFLC')
+        return p
+    x = rng.random()
+    if x < 0.25:
+        cls.append('empty_orf'); parts.append('ATG' + rng.choice(['TAA', 'TAG', 'TGA']) + rng.choice('ACGT'))
+    elif x < 0.5:
+        cls.append('atg_atg'); parts.append('ATGATG')
+    p1 = orf(rng.randint(4, 18))
+    if rng.random() < 0.5:
+        i = rng.randint(2, len(p1) - 1)
+        p1 = p1[:i] + rng.choice('KR') + 'M' + p1[i:]
+        cls.append('nested_atg_after_site')
+    parts.append(G.backtranslate(rng, p1))
+    y = rng.random()
+    if y < 0.35:
+        cls.append('stop_is_last_codon'); parts.append(rng.choice(['TAA', 'TAG', 'TGA']))
+    elif y < 0.8:
+        k = rng.choice([0, 1, 2]); cls.append('runoff_tail%d' % k); parts.append(G.rand_dna(rng, k).replace('ATG', 'ACG'))
+    else:
+        cls.append('atg_last_3nt'); parts.append(rng.choice(['TAA', 'TAG']) + rng.choice(['', 'C', 'CA']) + 'ATG')
+    return ''.join(parts), cls
+
+def gen_position_cases(rng, names, n):
+    out = []
+    for _ in range(n):
+        w = G.gen_world(rng, small=True, coding_p=0.6, max_genes=2)
+        o = gen_opts(rng, names)
+        o.update(inclusion=None, exclusion=None, min_tx_length=rng.choice([1, 21]), min_len=rng.choice([3, 5, 7]))
+        cls = []
+        for gi in range(rng.choice([1, 2])):
+            dna, c = design_position_tx(rng)
+            add_lnc_gene(w, rng, dna, gi + 1)
+            cls += c
+        out.append(dict(world=w, opts=o, pos_classes=cls))
+    return out
+
 # ------------------------------------------------------------------ model side
 def tx_rows(w):
     rows, ids = [], []
@@ -406,6 +454,12 @@ def shrink(ctx, case, same_class):
     return cur
 
 # ------------------------------------------------------------------ entry points
+def _hist(xs):
+    h = {}
+    for x in xs:
+        h[x] = h.get(x, 0) + 1
+    return h
+
 def corpus_cases():
     d = os.path.join(ROOT, 'corpus', PROPERTY)
     out = []
@@ -434,6 +488,8 @@ def run(ctx):
             cases.append(c)
     seeded = gen_seeded_cases(rng, names, 250 if ctx.quick else 8000)
     cases += seeded
+    posc = gen_position_cases(rng, names, 200 if ctx.quick else 5000)
+    cases += posc
     results = evaluate(ctx, cases)
     # how much work the clause "minus the canonical pool" does on the collision stream (measured, for the evidence)
     collide = measure_collisions(seeded[:200 if ctx.quick else 1500])
@@ -482,7 +538,9 @@ def run(ctx):
                      'ORF listed and a non-empty obliged (MUST) peptide set; distinct by full case',
                 samples=[dict(opts=c['opts'], n_genes=len(c['world']['genes'])) for c in cases[:3]],
                 distribution=dist, failures=sum(1 for r in results if r['probs']),
-                streams={'random_worlds+option_corners': len(cases) - len(seeded), 'canonical_collision': len(seeded)},
+                streams={'random_worlds+option_corners': len(cases) - len(seeded) - len(posc), 'canonical_collision': len(seeded),
+                         'atg_stop_position_classes': len(posc)},
+                position_classes=_hist([k for c in posc for k in c.get('pos_classes', [])]),
                 canonical_collision_stream=collide,
                 bracket_slack={'output_minus_MUST': slack_low, 'MAY_minus_output': slack_high, 'total_output': tot_out,
                                'total_MUST': tot_must, 'total_MAY': tot_may},
